@@ -356,6 +356,15 @@ def run_schemes(c):
         for a, b in ((ids[1], ids[2]), (ids[0], ids[3]), (ids[4], ids[1])):
             for klen in (16, 48) if not q else (rng.choice([16, 32, 48]),):
                 put({"op": "exchange", "ks": i2b(ke), "ident": a, "idb": b, "klen": klen, "seed": rng.randrange(1 << 30)}, kind="exchange", ke=ke, a=a, b=b, klen=klen)
+    # --- user key extraction at and next to the one master secret per identity for which it must fail: ks = -H1(ID||hid) (t1 = 0), and ks = that +- 1
+    for op, hid in (("sign_extract", R.HID_SIGN), ("enc_extract", R.HID_ENC), ("exch_extract", R.HID_EXCH)):
+        for ident in ids[:2]:
+            h1 = R.H1(ident, hid)
+            for delta in (0, 1, N - 1):
+                ksx = (-h1 + delta) % N
+                if ksx == 0:
+                    continue
+                put({"op": op, "ks": i2b(ksx), "ident": ident, "seed": rng.randrange(1 << 30)}, kind=op, ks=ksx, ident=ident, hid=hid, t1zero=(delta == 0))
     res = CL.run_script(*DRV, lines, tag="c17s", procs=14)
     execs, follow, ffacts = [], [], []
 
@@ -371,6 +380,11 @@ def run_schemes(c):
             c.violation(key[:180] + ":crash", "driver died / sanitizer report: %s" % san, {"line": {k: str(v)[:200] for k, v in line.items()}})
             continue
         ev = dict(evs[0])
+        if kind.endswith("_extract"):
+            ref = "" if f["t1zero"] else (R.g1_to_bytes(R.sign_key_extract(f["ks"], f["ident"])).hex() if kind == "sign_extract" else R.g2_to_bytes(R.enc_key_extract(f["ks"], f["ident"], f["hid"])).hex())
+            ev.update(t1zero=f["t1zero"], refkey=ref, key=ev.get("ds", ev.get("de", ""))); ev.setdefault("xrc", -99)
+            execs.append((key, [ev]))
+            continue
         if kind == "sign":
             ks, ident, m = f["ks"], f["ident"], f["msg"]
             Ppubs = pubs_cache.setdefault(("s", ks), R.sign_master_pub(ks))
